@@ -259,3 +259,23 @@ Definition C18_yr_case (module_names load : bool) (positional available out : li
 
 Definition C18_save_case (first second : N) (unchanged : bool) : bool * bool * N :=
   let ok := (first =? save_exit false) && (second =? save_exit true) && unchanged in (ok, ok, 0).
+
+(* a target that is neither a directory nor an existing file: a pid if it parses as one.  The
+   generator only uses pids that cannot exist and names no file has; `lib_err` is the text of the
+   library's own error for that pid / path *)
+Definition C18_input_case (arg : bytes) (lib_process_err lib_file_err : bytes) (out err : list bytes) (exit : N)
+  : bool * bool * N :=
+  let expected :=
+      match classify_input false false false arg with
+      | InProcess pid => B "Cannot scan " ++ dec pid ++ B ": " ++ lib_process_err
+      | _ => B "Cannot scan " ++ arg ++ B ": " ++ lib_file_err
+      end in
+  let ok := match out with [] => true | _ => false end
+            && list_eqb bytes_eqb err [expected] && (exit =? 1) in
+  (ok, ok, 0).
+
+(* the same with a file of that name present: it is scanned as a file (rule `a`, always true) *)
+Definition C18_input_exists_case (arg : bytes) (out : list bytes) (exit : N) : bool * bool * N :=
+  let ok := match classify_input false false true arg with InFile => true | _ => false end
+            && list_eqb bytes_eqb out [B "a " ++ arg] && (exit =? 0) in
+  (ok, ok, 0).
